@@ -4,7 +4,7 @@ from __future__ import annotations
 import ast
 
 from ..loader import AnalysisError, dotted, norm, walk_no_defs
-from ..minieval import MiniEval, Unsupported
+from ..minieval import MiniEval, Obj, Unsupported
 from ..paths import FP, PE, Executor, Out, Semantics
 from ..report import RuleReport
 from ..rules.common import attr_chain, run_flags
@@ -175,90 +175,105 @@ class ProgressSem(Semantics):
         return [state], [state]
 
 
+def _strings(alphabet, n):
+    import itertools
+    for k in range(0, n + 1):
+        for t in itertools.product(alphabet, repeat=k):
+            yield ''.join(t)
+
+
 def r2_sentinels(a, tier):
+    import math
     rep = RuleReport(
         'C08.R2',
-        'scanner/consumer agreement in tatsu/input/cursor.py: each scanner match_X(s, pos) returns the failure sentinel -1 (a '
-        'negative constant) or an end offset, and returns an end offset only on paths on which the scan position advanced (so '
-        'end > start); each consumer\'s failure test, interpreted on the sentinel and on end offsets, is true exactly for the '
-        'sentinel, and it dominates the slice / int() / float() conversion',
-        floor=10,
+        'the meta-expression scanners and their consumers in tatsu/input/cursor.py, interpreted for EVERY string over '
+        '{1, _, -, ., e, a} up to length 3 (thorough: 4, plus {+, E}) and the words true/True/false/False/t/x, at every position '
+        'from 0 to len(s): a scanner match_X(s, pos) raises nothing and returns -1 or an end offset with pos < end <= len(s); a '
+        'consumer matchX(cursor) raises nothing (no ValueError from int()/float() of the matched text, no IndexError), returns '
+        'None leaving the position unchanged, or the value of the matched text with the position moved to its end',
+        floor=1500,
     )
     mod = a.p.module('tatsu.input.cursor')
-    for consumer, producer, via in PAIRS:
-        pf = mod.functions.get(producer)
-        cf = mod.functions.get(consumer)
-        if pf is None or cf is None:
-            raise AnalysisError(f'anchor vanished: tatsu.input.cursor.{producer if pf is None else consumer}')
-        # ---- producer
-        rets = [r for r in walk_no_defs(pf.node) if isinstance(r, ast.Return) and r.value is not None]
-        sentinels = {ast.literal_eval(r.value) for r in rets if _is_const_int(r.value)}
-        posvars = {'p', 'q'}
-        exq = Executor(a.p, a.ct, a.resolver, ProgressSem(posvars), raises=a.raises)
-        # mark which return each outcome came from: re-run per return by flag on the statement
-        bad_returns = []
+    fns = {n: f for n, f in mod.functions.items()}
+    for need in {x for c, pr, _ in PAIRS for x in (c, pr)} | {'matchstr'}:
+        if need not in fns:
+            raise AnalysisError(f'anchor vanished: tatsu.input.cursor.{need}')
+    alpha = '1_-.ea' + ('+E' if tier == 'thorough' else '')
+    nmax = 4 if tier == 'thorough' else 3
+    numeric = list(_strings(alpha, nmax))
+    words = [''.join(t) for k in (1, 2) for t in __import__('itertools').product(['true', 'True', 'false', 'False', 't', 'x', ' '], repeat=k)]
+    names = list(_strings('a1_-', 3))
+    domain = {'match_int': numeric, 'match_uint': numeric, 'match_float': numeric, 'match_bool': words, 'match_name': names}
 
-        class Sem(ProgressSem):
-            def stmt(self, ex, fn, node, state):
-                return super().stmt(ex, fn, node, state)
+    def ev():
+        e = MiniEval({})
+        for n, f in fns.items():
+            e.globals[n] = ('<func>', f.node, {})
+        return e
 
-        outs = _returns_with_state(a, pf, posvars)
-        for r, states in outs.items():
-            if _is_const_int(r.value):
-                continue
-            if isinstance(r.value, ast.Call):
-                continue  # delegates to another scanner that is checked itself
-            if isinstance(r.value, ast.BinOp) and isinstance(r.value.op, ast.Add):
-                continue  # start + <length of a matched literal>
-            if any('adv' not in st for st in states):
-                bad_returns.append(r)
-        rep.add({'scanner': producer, 'failure_values': sorted(sentinels), 'returns': [norm(r.value) for r in rets],
-                 'offset_returned_only_after_progress': not bad_returns})
-        if sentinels - {-1}:
-            rep.fail(pf.qualname, f'sentinel:{sorted(sentinels)}', f'{producer} returns the constants {sorted(sentinels)}; the '
-                     f'failure sentinel of the protocol is -1', pf.loc)
-        for r in bad_returns:
-            rep.fail(pf.qualname, f'no-progress-return:{norm(r.value)}',
-                     f'`{norm(r)}` can return the position as a successful end offset on a path on which nothing was consumed '
-                     f'(e.g. no digit at the start): the consumer then converts an empty slice (int(\'\') -> ValueError)',
-                     f'{pf.module.relpath}:{r.lineno}')
-        # ---- consumer
-        tester = cf if via == 'direct' else mod.functions.get('matchstr')
-        if tester is None:
-            raise AnalysisError('anchor vanished: tatsu.input.cursor.matchstr')
-        test_if = None
-        for n in walk_no_defs(tester.node):
-            if isinstance(n, ast.If) and any(isinstance(x, ast.NamedExpr) for x in ast.walk(n.test)):
-                test_if = n
-                break
-        if test_if is None:
-            rep.fail(tester.qualname, 'no-failure-test', f'{tester.name} does not test the scanner result before using it', tester.loc)
-            continue
-        walrus = next(x for x in ast.walk(test_if.test) if isinstance(x, ast.NamedExpr))
-        fails_on_true = any(isinstance(x, ast.Return) and (x.value is None or norm(x.value) == 'None') for s in test_if.body for x in ast.walk(s))
-        verdicts = {}
-        for val in (-1, 1, 7):
-            ev = _WalrusEval(walrus, val)
-            try:
-                verdicts[val] = bool(ev.expr(test_if.test, {}))
-            except Unsupported as e:
-                raise AnalysisError(f'{tester.qualname}: cannot interpret the failure test `{norm(test_if.test)}`: {e}') from e
-        recognises = verdicts[-1] is fails_on_true and verdicts[1] is (not fails_on_true) and verdicts[7] is (not fails_on_true)
-        rep.add({'consumer': consumer, 'via': tester.name, 'failure_test': norm(test_if.test), 'test(-1)': verdicts[-1],
-                 'test(end offset)': verdicts[1], 'recognises_sentinel': recognises})
-        if not recognises:
-            rep.fail(tester.qualname, f'sentinel-test:{norm(test_if.test)}',
-                     f'{tester.name} tests the result of {producer} with `{norm(test_if.test)}`: for the failure value -1 the test is '
-                     f'{verdicts[-1]}, for an end offset {verdicts[1]} - a failed scan is not recognised (the scanner returns an int, '
-                     f'never None) and the text is sliced/converted anyway', f'{tester.module.relpath}:{test_if.lineno}')
-        # the consumer names the right producer
-        if via == 'matchstr':
-            ok = any(isinstance(n, ast.Call) and dotted(n.func) == 'matchstr' and len(n.args) == 2 and norm(n.args[1]) == producer
-                     for n in walk_no_defs(cf.node))
-        else:
-            ok = any(isinstance(n, ast.Call) and dotted(n.func) == producer for n in walk_no_defs(cf.node))
-        if not ok:
-            rep.fail(cf.qualname, f'pairing:{producer}', f'{consumer} no longer scans with {producer}', cf.loc)
+    n_bad = 0
+    # ---- scanners
+    for producer in sorted({pr for _, pr, _ in PAIRS}):
+        pf = fns[producer]
+        extra = [set('-')] if producer == 'match_name' else []
+        for s_ in domain[producer]:
+            for pos in range(0, len(s_) + 1):  # a cursor position: 0 <= pos <= len
+                try:
+                    r = ev().call_function(pf.node, [s_, pos, *extra])
+                    exc = None
+                except Unsupported as e:
+                    raise AnalysisError(f'cannot interpret {pf.qualname}: {e}') from e
+                except Exception as e:  # noqa: BLE001 - an exception of the interpreted scanner (IndexError ...)
+                    r, exc = None, type(e).__name__
+                ok = exc is None and isinstance(r, int) and (r == -1 or (pos < r <= len(s_) and pos >= 0))
+                rep.add({'scanner': producer, 'text': s_, 'pos': pos, 'result': r if exc is None else f'raises {exc}', 'ok': ok})
+                if not ok and n_bad < 12:
+                    n_bad += 1
+                    rep.fail(pf.qualname, f'scan:{s_!r}:{pos}', f'{producer}({s_!r}, {pos}) ' + (f'raises {exc}' if exc else f'returns {r}') +
+                             f'; the protocol is -1 for no match or an end offset with {pos} < end <= {len(s_)}', pf.loc)
+    # ---- consumers
+    convert = {'matchint': int, 'matchuint': int, 'matchsigned': int, 'matchfloat': float, 'matchbool': lambda t: t.lower() == 'true',
+               'matchname': str}
+    for consumer, producer, _via in PAIRS:
+        cf = fns[consumer]
+        for s_ in domain[producer]:
+            for pos in range(0, len(s_) + 1):
+                cur = Obj(textstr=s_, pos=pos, namechars=set('-'))
+
+                def methods(recv, name, args, kwargs, cur=cur, s_=s_):
+                    if recv is cur and name == 'goto':
+                        cur.pos = max(0, min(len(s_), args[0]))
+                        return None
+                    if recv is cur and name == 'move':
+                        cur.pos = max(0, min(len(s_), cur.pos + args[0]))
+                        return None
+                    return NotImplemented
+                e_ = ev()
+                e_.methods = methods
+                try:
+                    r = e_.call_function(cf.node, [cur])
+                    exc = None
+                except Unsupported as e:
+                    raise AnalysisError(f'cannot interpret {cf.qualname}: {e}') from e
+                except Exception as e:  # noqa: BLE001
+                    r, exc = None, f'{type(e).__name__}: {e}'
+                if exc is not None:
+                    ok = False
+                elif r is None:
+                    ok = cur.pos == pos
+                else:
+                    try:
+                        want = convert[consumer](s_[pos:cur.pos])
+                        ok = cur.pos > pos and (r == want or (isinstance(r, float) and isinstance(want, float) and math.isnan(r) and math.isnan(want)))
+                    except Exception:  # noqa: BLE001
+                        ok = False
+                rep.add({'consumer': consumer, 'text': s_, 'pos': pos, 'result': repr(r) if exc is None else f'raises {exc}', 'newpos': cur.pos, 'ok': ok})
+                if not ok and n_bad < 12:
+                    n_bad += 1
+                    rep.fail(cf.qualname, f'consume:{s_!r}:{pos}', f'{consumer} on the text {s_!r} at {pos} ' + (
+                        f'raises {exc}' if exc else f'returns {r!r} and leaves the position at {cur.pos}') +
+                        ': a consumer returns None without moving, or the value of the text it consumed; it never lets the conversion '
+                        'of a scanned text fail', cf.loc)
     return rep
 
 
